@@ -50,10 +50,10 @@ def flowChk : CPc → Bool
   | .flowIsSet | .flowSet => true
   | _ => false
 
-/-- workers that have not left their loop (`gone`: exited, or — `Cfg.joinTimeout` — retired with only `end()` left) -/
+/-- workers that have not left their loop (`gone`: exited, or only `end()` left) -/
 def liveCnt (s : St) : Nat := s.workers.countP (fun w => !gone w.pc)
 
-/-- no worker is between the post of its wid and its `end()` (always so without a join timeout) -/
+/-- no worker is inside `end()` (between the end of its loop and its exit) -/
 def NoEnding (s : St) : Prop := ∀ w ∈ s.workers, w.pc ≠ .ending
 
 theorem exited_of_gone_noEnding {s : St} (hE : NoEnding s) {w : Worker} (hw : w ∈ s.workers) (hg : gone w.pc = true) :
